@@ -1021,3 +1021,46 @@ Theorem TRANSL_lineInfo_winding : forall (O : Ops),
     sdf_lineInfo_winding (li_a a, li_b a) (li_u a) p = winding a p.
 Proof. exact (@lineInfo_winding_eq). Qed.
 Print Assumptions TRANSL_lineInfo_winding.
+
+(* sdf/cams.go, sdf/flange.go, sdf/rack.go, sdf/spiral.go: the primitives of Sdf/Prim2X.v (Sdf/GenEqX.v).
+   Not translated: ArcSpiral2D / ArcSpiralSDF2.Evaluate (unbounded loops; differential execution in C01),
+   GearRack2D (builds a polygon), MakeThreeArcCam (sdf/line.go intersection). *)
+From Sdfx Require Import Sdf.Prim2X Sdf.GenEqX.
+Theorem TRANSL_FlatFlankCam : forall (O : Ops) (distance baseRadius noseRadius : T O) (a u : V2 O) (l : T O) (p : V2 O),
+    sdf_FlatFlankCamSDF2_Evaluate distance baseRadius noseRadius a u l p = flatflank_ev distance baseRadius noseRadius a u l p.
+Proof. exact (@FlatFlankCam_eq). Qed.
+Print Assumptions TRANSL_FlatFlankCam.
+Theorem TRANSL_FlatFlankCam2D_ctor : forall (O : Ops) (distance baseRadius noseRadius : T O),
+    option_map obj2_of (sdf_FlatFlankCam2D distance baseRadius noseRadius) = k_flatflankcam distance baseRadius noseRadius.
+Proof. exact (@FlatFlankCam2D_ctor). Qed.
+Print Assumptions TRANSL_FlatFlankCam2D_ctor.
+Theorem TRANSL_MakeFlatFlankCam_ctor : forall (O : Ops) (lift duration maxDiameter : T O),
+    option_map obj2_of (sdf_MakeFlatFlankCam lift duration maxDiameter) = k_makeflatflankcam lift duration maxDiameter.
+Proof. exact (@MakeFlatFlankCam_ctor). Qed.
+Print Assumptions TRANSL_MakeFlatFlankCam_ctor.
+Theorem TRANSL_Flange1 : forall (O : Ops) (distance centerRadius sideRadius : T O) (a u : V2 O) (l : T O) (p : V2 O),
+    sdf_Flange1_Evaluate distance centerRadius sideRadius a u l p = flange1_ev distance centerRadius sideRadius a u l p.
+Proof. exact (@Flange1_eq). Qed.
+Print Assumptions TRANSL_Flange1.
+Theorem TRANSL_NewFlange1_ctor : forall (O : Ops) (distance centerRadius sideRadius : T O),
+    option_map obj2_of (sdf_NewFlange1 distance centerRadius sideRadius) = k_flange1 distance centerRadius sideRadius.
+Proof. exact (@NewFlange1_ctor). Qed.
+Print Assumptions TRANSL_NewFlange1_ctor.
+Theorem TRANSL_ThreeArcCam : forall (O : Ops) (distance baseRadius noseRadius flankRadius : T O) (fc : V2 O)
+    (thetaBase thetaNose : T O) (p : V2 O),
+    sdf_ThreeArcCamSDF2_Evaluate distance baseRadius noseRadius flankRadius fc thetaBase thetaNose p
+    = threearc_ev distance baseRadius noseRadius flankRadius fc thetaBase thetaNose p.
+Proof. exact (@ThreeArcCam_eq). Qed.
+Print Assumptions TRANSL_ThreeArcCam.
+Theorem TRANSL_ThreeArcCam2D_ctor : forall (O : Ops) (distance baseRadius noseRadius flankRadius : T O),
+    option_map obj2_of (sdf_ThreeArcCam2D distance baseRadius noseRadius flankRadius)
+    = k_threearccam distance baseRadius noseRadius flankRadius.
+Proof. exact (@ThreeArcCam2D_ctor). Qed.
+Print Assumptions TRANSL_ThreeArcCam2D_ctor.
+Theorem TRANSL_GearRack : forall (O : Ops) (tooth : V2 O -> T O) (pitch length : T O) (p : V2 O),
+    sdf_GearRackSDF2_Evaluate tooth pitch length p = gearrack_ev tooth pitch length p.
+Proof. exact (@GearRack_eq). Qed.
+Print Assumptions TRANSL_GearRack.
+Theorem TRANSL_polarDist2 : forall (O : Ops) (p0 p1 : T O * T O), sdf_polarDist2 p0 p1 = polar_dist2 p0 p1.
+Proof. exact (@polarDist2_eq). Qed.
+Print Assumptions TRANSL_polarDist2.
